@@ -1,5 +1,8 @@
 // src/runtime/ops/aggregate.rs
-use std::{collections::HashMap, vec::IntoIter};
+use std::{
+    collections::{HashMap, HashSet},
+    vec::IntoIter,
+};
 
 use crate::{
     runtime::{ExecutionStats, Executor, RuntimeError, RuntimeResult, eval::ExpressionEvaluator},
@@ -137,6 +140,8 @@ struct GroupBucket {
     key: Vec<DataType>,
     /// One accumulator per aggregate expression.
     accumulators: Vec<Accumulator>,
+    /// Per aggregate expression: the values already fed to it (only used by DISTINCT aggregates).
+    seen: Vec<HashSet<DataType>>,
 }
 
 impl GroupBucket {
@@ -147,6 +152,7 @@ impl GroupBucket {
                 .iter()
                 .map(|agg| Accumulator::new(&agg.func))
                 .collect(),
+            seen: aggregates.iter().map(|_| HashSet::new()).collect(),
         }
     }
 }
@@ -219,6 +225,11 @@ impl<Child: Executor> HashAggregate<Child> {
                 None | Some(BoundExpression::Star) => bucket.accumulators[i].accumulate_star(),
                 Some(ref arg) => {
                     let value = evaluator.evaluate_as_single_value(arg)?;
+                    // COUNT(DISTINCT x), SUM(DISTINCT x), ...: a value this group has already fed to
+                    // this aggregate is not fed again
+                    if agg_expr.distinct && !bucket.seen[i].insert(value.clone()) {
+                        continue;
+                    }
                     bucket.accumulators[i].accumulate(&value)?;
                 }
             }
